@@ -5,6 +5,20 @@ C06_ASSUME = ["type shapes limited to harness generator anyStructural (primitive
               "evolution context empty (no named record/enum definitions) in the type-pair harness"]
 
 PARTS = {
+    "C12": [
+        (G, "gosym_part", dict(name="c12_error_order", entry="internal/zzverif.C12ErrorOrder", args_quick=(2,), args_thorough=(3,),
+                               required_sites=("errors-order-independent",),
+                               desc="ErrorSink.AsError on n symbolic diagnostics (file, optional line/column >= 1, message) recorded in two different orders: "
+                                    "sorted records agree field by field (strict weak order + ties indistinguishable)",
+                               assumptions=["line/column numbers are >= 1 when present (yaml.v3 positions)", "sort.Slice modelled by insertion sort: any correct sort yields the same sequence iff ties are indistinguishable"])),
+        (G, "gosym_part", dict(name="c12_warning_order", entry="internal/zzverif.C12WarningOrder", args_quick=(2,), args_thorough=(3,),
+                               required_sites=("warnings-order-independent",),
+                               desc="WarningSink.AsStrings, same obligation", assumptions=["line/column numbers are >= 1 when present"])),
+        (G, "gosym_part", dict(name="c12_write_if_needed", entry="internal/zzverif.C12WriteIfNeeded",
+                               required_sites=("untouched-iff-identical", "created-when-missing", "final-content"),
+                               desc="iocommon.WriteFileIfNeeded on symbolic old/new contents (SMT strings): a write happens iff contents differ or the file is missing",
+                               assumptions=["os.ReadFile/WriteFile modelled by the virtual file system in env_intrinsics.go"])),
+    ],
     "C06": [
         (G, "gosym_part", dict(name="c06_reflexive", entry="internal/zzverif.C06Reflexive", args_quick=(1, 1), args_thorough=(2, 1),
                                required_sites=("reflexive", "total"), assumptions=C06_ASSUME,
@@ -33,6 +47,10 @@ NOTES = ("Every claim is bounded: 'holds' means unsat within the stated bound. E
 NOT_APPLICABLE = {}
 
 CLAIMS = {
+    "C12": dict(text="Bounded symbolic execution (gosym) of the diagnostic sinks' real comparators and of WriteFileIfNeeded: rendered diagnostics are "
+                     "independent of recording order for all symbolic records (2 quick / 3 thorough), and regenerating identical content performs no write.",
+                note="Covers the diagnostic-order and idempotent-write mechanisms only; map-iteration-order independence of generators is not yet covered. "
+                     "Assumes positions >= 1; sort.Slice replaced by a stable reference sort; virtual file system for os calls."),
     "C14": dict(text="Bounded symbolic execution (gosym) of the four binary type->serializer recursions on one symbolic type: every emitted "
                      "expression denotes Plan(T) for all shapes within the depth bound and all 64-bit lengths/dimensions; violations are replayed natively.",
                 note="Trusts the head tables (meaning of runtime entry points), the gosym intrinsic models listed in evidence.stubs, and z3. "
